@@ -258,7 +258,7 @@ def compare_kinetic(spec, tmpdir, model=None):
                 break
         if fails:
             break
-    return "ok", fails[:3], compared
+    return "ok", fails[:10], compared
 
 
 # ------------------------------------------------------------------------------- parameter records
@@ -311,7 +311,7 @@ def compare_theta(recs):
             fails.append(f"THETA({i}) upper bound {p.upper} vs {r['upper']}")
         if r["init"] is not None and bool(p.fix) != bool(r["fix"]):
             fails.append(f"THETA({i}) fix {p.fix} vs {r['fix']}")
-    return "ok", fails[:3], len(ref)
+    return "ok", fails[:10], len(ref)
 
 
 def compare_omega(recs):
@@ -354,7 +354,7 @@ def compare_omega(recs):
                 fails.append(f"OMEGA({i+1},{i+1}) fix {fx} vs NM-TRAN {b['fix']}")
         pos += b["size"]
     # block structure: etas of different NM-TRAN blocks must be independent, same block -> one joint distribution
-    return "ok", fails[:3], n * n
+    return "ok", fails[:10], n * n
 
 
 # ------------------------------------------------------------------------------- self test of the oracle
@@ -428,7 +428,7 @@ def run_shard(shard, tier):
         if status == "ok" and compared and not fails:
             res["distinct_nontrivial"] += 1
         note(status if not fails else "mismatch")
-        for f in fails[:1]:
+        for f in fails[:10]:
             w = dict(witness)
             w["what"] = f"[{text}] {f}"
             w["class"] = kind + ":" + f.split(" ")[0][:20]
